@@ -147,3 +147,52 @@ Proof.
   specialize (S _ _ s 2%nat 1%nat I ltac:(lia)). cbv zeta in S. rewrite En in S.
   apply (S 3%nat 1%N); [lia|simpl; lia|vm_compute; reflexivity|]. exact E4.
 Qed.
+
+(* ---------- MaxTraceableBlocks lowered by a block that is not persisted yet ----------
+   tryRunGC reads GetMaxTraceableBlocks() of the CURRENT height and subtracts it from the PERSISTED height.  The value is
+   only ever lowered, so the length m' read there can be smaller than the length w in force on the persisted chain
+   (hypothesis w <= m' of gc_safe_at_every_height fails).  "Any positive length not above the persisted one will do" is
+   false: a node restarted from the store promises (p - w, p] and has lost a state of it (finding F61). *)
+Definition gc_with_lowered_window_statement (nb : hash -> bytes) : Prop :=
+  forall H g s w m' period,
+    Inv nb MGC H g s -> (0 < m' <= w)%nat ->
+    let p := s_n s in
+    let G := gc_target p m' period in
+    forall j h, (p - w < j <= p)%nat -> (g <= j)%nat -> 0 < occT h (trie_at H j) ->
+      lookup (gc (Z.of_nat G) (s_tbl s)) h <> None.
+
+Definition pw5_evs : list event := pw_evs ++ [EBlock pw_T4 []].
+
+Lemma pw5_ok : evs_ok (fun h => h) true None None 0 pw5_evs.
+Proof.
+  assert (K : forall (f g : N -> Z) (l : list N), (forall h, In h l -> f h = g h) ->
+              (forall h, ~ In h l -> f h = g h) -> forall h, f h = g h).
+  { intros f g l A B h. destruct (in_dec N.eq_dec h l); auto. }
+  unfold pw5_evs, pw_evs. cbn [app evs_ok].
+  assert (Z0 : forall h, net h [] = occT h pw_T - occT h pw_T) by (intros h; cbn [net fold_right]; lia).
+  assert (Z4 : forall h, net h [] = occT h pw_T4 - occT h pw_T4) by (intros h; cbn [net fold_right]; lia).
+  split; [repeat constructor|]. split.
+  - apply (K _ _ [1;2]%N).
+    + intros h [<-|[<-|[]]]; reflexivity.
+    + intros h NI. unfold net, net1, occT, pw_T. simpl.
+      destruct (N.eqb_spec h 2); [exfalso; apply NI; subst; simpl; auto|].
+      destruct (N.eqb_spec h 1); [exfalso; apply NI; subst; simpl; auto|]. reflexivity.
+  - split; [constructor|]. split; [exact Z0|]. split; [constructor|]. split; [exact Z0|].
+    split; [repeat constructor|]. split.
+    + apply (K _ _ [1;2]%N).
+      * intros h [<-|[<-|[]]]; reflexivity.
+      * intros h NI. unfold net, net1, occT, pw_T, pw_T4. simpl.
+        destruct (N.eqb_spec h 1); [exfalso; apply NI; subst; simpl; auto|].
+        destruct (N.eqb_spec h 2); [exfalso; apply NI; subst; simpl; auto|]. reflexivity.
+    + split; [constructor|]. split; [exact Z4|exact I].
+Qed.
+
+Theorem gc_with_lowered_window_refuted : ~ gc_with_lowered_window_statement (fun h => h).
+Proof.
+  intros S. destruct (run_inv_init (fun h => h) MGC pw5_evs pw5_ok) as [s [R I]].
+  assert (E : s_n s = 5%nat /\ lookup (gc 4 (s_tbl s)) 1%N = None).
+  { vm_compute in R. inv R. vm_compute. split; reflexivity. }
+  destruct E as [En E4].
+  specialize (S _ _ s 3%nat 1%nat 1%nat I ltac:(lia)). cbv zeta in S. rewrite En in S.
+  apply (S 3%nat 1%N); [lia|simpl; lia|vm_compute; reflexivity|]. exact E4.
+Qed.
